@@ -21,28 +21,28 @@ const RepoModule = "github.com/gontainer/gontainer"
 
 // World is the loaded program plus all contracts.
 type World struct {
-	Dir     string
-	Fset    *token.FileSet
-	Pkgs    []*packages.Package
-	Prog    *ssa.Program
-	Sorts   *Sorts
-	Funcs   map[string]*ssa.Function  // qualified key -> function (repo, non-generated)
-	Specs   map[string]*spec.FuncSpec // qualified key -> contract
-	SpecFns map[string]*spec.SpecFunc // name (pkg-qualified and bare) -> spec function
-	Axioms  []*spec.Axiom
-	Lemmas  []*spec.Lemma
-	SortDs  []*spec.SortDecl
-	Globals map[string][]*spec.Global // package path -> global invariants
-	FuncGlobals map[*ssa.Global]*ssa.Function // package-level func variables bound once to a function
-	Ghosts map[string]*spec.Ghost
+	Dir                 string
+	Fset                *token.FileSet
+	Pkgs                []*packages.Package
+	Prog                *ssa.Program
+	Sorts               *Sorts
+	Funcs               map[string]*ssa.Function  // qualified key -> function (repo, non-generated)
+	Specs               map[string]*spec.FuncSpec // qualified key -> contract
+	SpecFns             map[string]*spec.SpecFunc // name (pkg-qualified and bare) -> spec function
+	Axioms              []*spec.Axiom
+	Lemmas              []*spec.Lemma
+	SortDs              []*spec.SortDecl
+	Globals             map[string][]*spec.Global     // package path -> global invariants
+	FuncGlobals         map[*ssa.Global]*ssa.Function // package-level func variables bound once to a function
+	Ghosts              map[string]*spec.Ghost
 	RangeNeedsInjective map[*ssa.Range]bool // criterion A' of C08: the ranged map must be injective
-	PkgByPath map[string]*packages.Package
-	GlobalDecls []string
-	Regexes map[*ssa.Global]string // global *regexp.Regexp -> constant pattern
-	SpecErrs []string
-	specFnDeclared map[string]bool
-	ContractFiles []string
-	mayEffect map[*ssa.Function]int // memo: 1 = no, 2 = yes, 3 = in progress
+	PkgByPath           map[string]*packages.Package
+	GlobalDecls         []string
+	Regexes             map[*ssa.Global]string // global *regexp.Regexp -> constant pattern
+	SpecErrs            []string
+	specFnDeclared      map[string]bool
+	ContractFiles       []string
+	mayEffect           map[*ssa.Function]int // memo: 1 = no, 2 = yes, 3 = in progress
 }
 
 func shortPath(p string) string {
